@@ -2,26 +2,37 @@ package main
 
 import (
 	"bytes"
-	"encoding/csv"
 	"os"
+	"strings"
 )
 
 // verifCSV (native side): write a CSV file holding the records; before record errAt (if >= 0)
 // a malformed line (bare quote) is inserted. The engine intercepts this function and feeds
 // the records to its encoding/csv stub instead.
+//
+// Fields are quoted only where RFC 4180 requires it (quote, comma, CR, LF inside; a lone
+// empty field on its line): in particular a field that begins with a blank is written as is,
+// which is well-formed CSV whose field value includes the blank.
 func verifCSV(path string, records [][]string, errAt int) {
 	var buf bytes.Buffer
-	w := csv.NewWriter(&buf)
 	for i, r := range records {
 		if i == errAt {
-			w.Flush()
 			buf.WriteString("x\"y\n")
 		}
-		if err := w.Write(r); err != nil {
-			panic(err)
+		for j, f := range r {
+			if j > 0 {
+				buf.WriteByte(',')
+			}
+			if strings.ContainsAny(f, "\",\r\n") || (f == "" && len(r) == 1) || f == `\.` {
+				buf.WriteByte('"')
+				buf.WriteString(strings.ReplaceAll(f, `"`, `""`))
+				buf.WriteByte('"')
+			} else {
+				buf.WriteString(f)
+			}
 		}
+		buf.WriteByte('\n')
 	}
-	w.Flush()
 	if errAt >= len(records) {
 		buf.WriteString("x\"y\n")
 	}
